@@ -328,6 +328,13 @@ func c19PrefixKeys(c *ev.Ctx) {
 // c19RepeatedRuns: a script that assigns no variable must give the same result, error
 // text and host-call trace on every run of one prepared evaluator - also when the runs
 // fail, hit the engine's limits, or return early.
+// c19RepeatWant: what some of the repeated-run scripts must return (every run).
+var c19RepeatWant = map[string]string{
+	`function find(ids) { foreach i1 in ids { if (seen) { return "again " + string(seen); } local seen; seen = i1; if (i1 == 7) { return "found"; } } return "none"; } return [find(Ids), find([1, 7]), find([])];`: "ARRAY:[found, again 1, none]",
+	`function tag(name) { return "t:" + name; } function who() { return "user:" + name; } return [tag("nobody"), who(), tag("x")];`:                                                                                 "ARRAY:[t:nobody, user:steve, t:x]",
+	`function a(p) { local l; l = p; return l; } function b() { return [p, l]; } return [a(1), b(), a(2), b()];`:                                                                                                    "ARRAY:[1, [null, null], 2, [null, null]]",
+}
+
 func c19RepeatedRuns(c *ev.Ctx) {
 	scripts := []struct {
 		script string
@@ -338,6 +345,9 @@ func c19RepeatedRuns(c *ev.Ctx) {
 		{`function down(n) { if (n <= 0) { panic("bottom"); } return 1 + down(n - 1); } return down(Depth);`, map[string]interface{}{"Depth": 3000}},
 		{`foreach i, e in [3, 1, 2] { foreach j, f in "ab" { v(i, e, j, f); if (e == 1) { return [i, j]; } } } return 0;`, nil},
 		{`function f(a) { foreach q in 1..5 { if (q == a) { return v(q) / Zero; } } return 0; } return f(3) + f(9);`, map[string]interface{}{"Zero": 0}},
+		{`function find(ids) { foreach i1 in ids { if (seen) { return "again " + string(seen); } local seen; seen = i1; if (i1 == 7) { return "found"; } } return "none"; } return [find(Ids), find([1, 7]), find([])];`, map[string]interface{}{"Ids": []interface{}{7, 8}}},
+		{`function tag(name) { return "t:" + name; } function who() { return "user:" + name; } return [tag("nobody"), who(), tag("x")];`, map[string]interface{}{"name": "steve"}},
+		{`function a(p) { local l; l = p; return l; } function b() { return [p, l]; } return [a(1), b(), a(2), b()];`, nil},
 		{`switch (Kind) { case /^x/ { return v(1); } case "y", "z" { return v(2); } default { return v(sort(["b", "a", "C"], true)); } }`, map[string]interface{}{"Kind": "q"}},
 		{`return [v(sort(Tags)), v(reverse(Tags)), v(keys(Meta)), v(string(Meta)), Tags, Meta];`, map[string]interface{}{"Tags": []interface{}{"b", "a", "c"}, "Meta": map[string]interface{}{"z": 1, "a": 2, "m": 3}}},
 	}
@@ -356,6 +366,10 @@ func c19RepeatedRuns(c *ev.Ctx) {
 				o := evr.Exec(sc.obj)
 				t := fmt.Sprintf("%s err=%q calls=%d trace=%s", o.Desc(), errText(o.Err), len(o.Trace), strings.Join(o.Trace, "|"))
 				c.Case(fmt.Sprint(id, run), true)
+				if want, ok := c19RepeatWant[sc.script]; ok && run == 0 && o.Desc() != want {
+					c.Violation(id, "repeated-run script gives a wrong result", map[string]interface{}{"summary": fmt.Sprintf("%q gives %s %s, expected %s", sc.script, o.Desc(), errText(o.Err), want), "script": sc.script})
+					break
+				}
 				if run == 0 {
 					first = t
 				} else if t != first {
